@@ -69,6 +69,7 @@ type Recording struct {
 	Order   []int // write ids in S order
 	MarkPos map[string][]int
 	TGOf    map[int64]int64 // payload id -> id of the logged transaction that carries it (whole recording)
+	TGPos   map[int64]int   // transaction id -> effect index of its TGDATA body write
 	// Destroys: per bucket key, the [start, ack] effect positions of Destroy requests (ack = -1: not acknowledged)
 	Destroys map[string][][2]int
 }
@@ -123,13 +124,15 @@ func record(h *hist.History, dir string) (*Recording, error) {
 		}
 	}
 	rec.TGOf = map[int64]int64{}
+	rec.TGPos = map[int64]int{}
 	last8 := map[string]int64{}
-	for _, e := range lg.Effects {
+	for ei, e := range lg.Effects {
 		if e.Kind == sp.Write && strings.Contains(e.Path, ".walfile") {
 			if len(e.Data) == 8 {
 				last8[e.Path] = int64(binary.LittleEndian.Uint64(e.Data))
 			} else if int64(len(e.Data)) == last8[e.Path] && len(e.Data) >= 16 {
 				if tgid, cmds, err := parseTGBody(e.Data); err == nil {
+					rec.TGPos[tgid] = ei
 					for _, c := range cmds {
 						for _, v := range c.Vs {
 							rec.TGOf[v] = tgid
